@@ -189,7 +189,10 @@ def coq_setup():
     with Lock("coq"):
         if ALT:
             os.makedirs(os.path.join(COQ, "generated"), exist_ok=True)
-            sh("rsync -a --delete %s/ %s/" % (shlex.quote(os.path.join(ROOT, "coq", "theories")),
+            # sources only: compiled files of the main tree must not leak into an alternate tree (its generated
+            # kernels differ, which would give "inconsistent assumptions" instead of the broken lemma)
+            sh("rsync -a --delete --exclude '*.vo' --exclude '*.vok' --exclude '*.vos' --exclude '*.glob' "
+               "--exclude '.*.aux' %s/ %s/" % (shlex.quote(os.path.join(ROOT, "coq", "theories")),
                                                 shlex.quote(os.path.join(COQ, "theories"))))
         os.makedirs(os.path.join(COQ, "extracted"), exist_ok=True)
         mk = os.path.join(COQ, "Makefile")
